@@ -220,7 +220,7 @@ func c13HistCfg(tier string) []*histCfg {
 	}
 	probes := []Op{{Kind: "get", T: "D1"}, {Kind: "get", T: "P5", Key: "k"}, {Kind: "group", T: "D3", Group: "g"}}
 	return []*histCfg{
-		{Name: "c13-hist/mix", Spec: mixSpec(false), Probes: probes, MaxScopes: 3, Depth: depth, CtxKinds: []string{"cancel", "nil"}, Oracle: c13SeqOracle},
+		{Name: "c13-hist/mix", Spec: mixSpec(false), Probes: probes, MaxScopes: 3, Depth: depth, CtxKinds: []string{"cancel", "nil", "pcancel"}, Oracle: c13SeqOracle},
 		{Name: "c13-hist/mix-init", Spec: mixSpec(true), Probes: probes[:1], MaxScopes: 3, Depth: depth, CtxKinds: []string{"cancel"}, Oracle: c13SeqOracle},
 	}
 }
@@ -228,7 +228,7 @@ func c13HistCfg(tier string) []*histCfg {
 func init() {
 	mc.Register(&mc.Check{
 		Prop:        "C13",
-		Rule:        "sequential: every history over {CreateScope(provider|scope, cancellable|inherited ctx), Get, GetKeyed, GetGroup, Close(scope|provider), cancel} up to the depth bound, each operation compared with the closed-means-closed model; overlapping: every schedule (preemption bound 2 quick / 3 thorough) of one closer || one in-flight operation, then retries on every closed object. An outcome is the canonical observation string of one execution.",
+		Rule:        "sequential: every history over {CreateScope(provider|scope, cancellable | inherited | cancellable-derived-from-the-parent-scope's-context ctx), Get, GetKeyed, GetGroup, Close(scope|provider), cancel} up to the depth bound, each operation compared with the closed-means-closed model; overlapping: every schedule (preemption bound 2 quick / 3 thorough) of one closer || one in-flight operation, then retries on every closed object. An outcome is the canonical observation string of one execution.",
 		Assume:      []string{"sequentially consistent interleavings at synchronisation granularity (justified by the race detector's silence)", "context cancellation is observed by the watcher goroutine as a scheduler-visible blocking operation"},
 		MinOutcomes: 10,
 		Jobs: func(tier string) []mc.Job {
